@@ -86,6 +86,19 @@ fn main() {
                 println!("VIOLATION {v:?}");
             }
         }
+        Some("idx") => {
+            // the run with this index of a batch (as `batch` / `check` would execute it)
+            let fam = Family::parse(&args[2]).expect("family");
+            let base: u64 = args[3].parse().expect("base seed");
+            let idx: u64 = args[4].parse().expect("index");
+            let (mode, _) = dst::batch::mode_of(base, fam, idx);
+            let out = run_one(fam, mode);
+            println!("{}", dst::report::sample_trace(&out, 100_000));
+            println!("choices={:?}", out.choices);
+            for v in dst::oracle::check_all(&out) {
+                println!("VIOLATION {v:?}");
+            }
+        }
         Some("batch") => {
             let fam = Family::parse(&args[2]).expect("family");
             let seed: u64 = args[3].parse().expect("seed");
